@@ -316,7 +316,7 @@ def make(S=2, dz=1, pal=0, supp='box', wass=False, ex='none', pr='free', okind='
                 r['supp'] = sp
     spec['rows'] = R
     if pr in ('n2', 'kl') or ex in ('alln2', 'subn2'):
-        if pr in ('n2', 'kl') and exl:
+        if pr in ('n2', 'kl') and exl and not (S == 2 and supp == 'single' and not wass):
             return None
         spec['solver'] = 'eco'
     spec['tag'] = 'S%d|dz%d%s|%s|%s|%s|%s|ny%d|yp%s|m%s|%s|%s' % (
@@ -445,6 +445,15 @@ def _gen(pal, thorough):
                         for okind in ('minsup_E', 'minsup_Epw'):
                             yield make(S=S, dz=dz, pal=pal, supp=supp, ex=ex, pr=pr, okind=okind,
                                        ny=0 if okind == 'minsup_Epw' else 1, rows='basic+E')
+    # curved probability set TOGETHER with an expectation set (exp cones and second-order cones in the same lifted set,
+    # SOC + SOC, exp + linear): two scenarios with singleton supports, where the ambiguity set is an interval of p0
+    for pr in ('n2', 'kl'):
+        for ex in ('allbox', 'alln1', 'allabs', 'alln2', 'sub0', 'subn2'):
+            for dz in (1, 2):
+                for okind in ('minsup_E', 'minsup_Epw', 'maxinf_E', 'minsup_Ebi', 'maxinf_Epw'):
+                    for rows in ('basic', 'basic+E'):
+                        yield make(S=2, dz=dz, pal=pal, supp='single', ex=ex, pr=pr, okind=okind, rows=rows,
+                                   ny=0 if okind.endswith('Epw') else 1)
     # Q5: piecewise rows  E(maxof(..)) <= 0 / E(minof(..)) >= 0 / maxof(..) <= 0 / minof(..) >= 0
     for S in (1, 2, 3):
         for rows in ('Epw<=', 'Epw>=', 'Rpw<=', 'Rpw>='):
